@@ -77,6 +77,16 @@ def binarySearch (a : Array Nat) (x : Nat) : Sum Nat Nat :=
   let v := a[base]!
   if v = x then .inl base else .inr (base + (if v < x then 1 else 0))
 
+/-- `slice::partition_point(|&start| start <= x)` (core: the same branch-free loop with a comparator
+    that never answers `Equal`) -/
+def partitionPoint (a : Array Nat) (x : Nat) : Nat :=
+  if a.size = 0 then 0 else
+  let base := binarySearchLoop a x a.size 0 a.size
+  base + (if a[base]! ≤ x then 1 else 0)
+
+/-- scanner.rs `line_of`: 1-based number of the line holding the offset -/
+def lineOfTable (lines : Array Nat) (pos : Nat) : Nat := partitionPoint lines pos + 1
+
 /-- scanner.rs `line_info` on a line table -/
 def lineInfoOf (profile : Profile) (lines : Array Nat) (pos : Nat) : Except SErr (Nat × Nat) :=
   match binarySearch lines pos with
